@@ -2,6 +2,7 @@
 import ast
 from ..core import Result
 from ..pm import AnalysisError, unparse
+from ..match import Code
 from ..paths import paths, annotate, callee_names, call_attr
 from ..rat import (Ev, Rat, Sym, Poly, fn_eval, rat_eq, Inconclusive, ONE,
                    ZERO, const_of)
@@ -145,7 +146,7 @@ def placement(ctx):
                 f'{ {"object": "-thickness", "first": "0", "other": "positions[index-1] + last_thickness"}[name] }',
                 construct=f'_configure_cs arm {name}'))
     # decentres / tilts forwarded
-    src = unparse(f.node, 4000)
+    src = Code(P, f)
     for k in ('dx', 'dy', 'rx', 'ry'):
         pass
     # predecessor index agreement with the media chaining
@@ -592,7 +593,7 @@ def one_stop(ctx):
     for q, attr in (('SurfaceGroup.stop_index', 'is_stop'),
                     ('WavelengthGroup.primary_index', 'is_primary')):
         h = P.func(q)
-        src = unparse(h.node, 2000)
+        src = Code(P, h)
         if f'.{attr}' in src and 'enumerate' in src and 'return index' in src:
             res.ok(f'{q} returns the index of the flagged element')
         else:
@@ -640,7 +641,7 @@ def setter_writes(ctx):
                 if st.attr == direct and st.value is not None and \
                         unparse(st.value) == 'value':
                     okv = True
-            srcs = unparse(f.node, 3000)
+            srcs = Code(P, f)
             okl = 'surfaces[surface_number]' in srcs
             if okv and okl:
                 res.ok(f'{q}: surfaces[surface_number].{direct} := value')
@@ -748,7 +749,7 @@ def pickup(ctx):
                                  f"pickup '{kind}' does not read the source "
                                  f"quantity / write the target through "
                                  f"{setter}", construct=f'pickup kind {kind}'))
-    gsrc = unparse(g.node, 3000)
+    gsrc = Code(P, g)
     if 'surfaces[self.source_surface_idx]' in gsrc:
         res.ok('_get_value addresses the source surface')
     else:
@@ -898,7 +899,7 @@ def solve(ctx):
                              'image_solve does not move the image to the '
                              'paraxial focus', construct='image_solve law'))
     m = P.func('SolveManager.add')
-    src = unparse(m.node, 2000)
+    src = Code(P, m)
     if 'solve.apply()' in src and 'self.solves.append(solve)' in src:
         res.ok('SolveManager.add applies and registers the solve')
     else:
